@@ -406,6 +406,7 @@ def fancy_console(ck, ctx):
 
 
 def run(ck, ctx):
+    C.adapter_census(ck, ctx, "capture", ("task::", "process_posix::", "work::", "progress_dumb::"))
     recipe(ck, ctx)
     cloexec(ck, ctx)
     read_then_wait(ck, ctx)
